@@ -138,12 +138,15 @@ def _symbolic_leg(ob, job, cfg):
         ob.prove("output-lengths", [], r["new"].shape == (n,) and r["init"].shape == (n,) and r["pol"].shape == (n, cfg["da"])
                  and r["pv"].shape == (n,) and r["sv"].shape == (n,), cex=lambda m: dict(kind="shape", cfg=cfg, devices=job["devices"]),
                  kind="every returned array has length n_states")
+        scaled = list(np.asarray(L.R, dtype=object).flat) + list(V) + list(L.V0)
+        unit = list(np.asarray(L.P, dtype=object).flat) + [g]
         for i in range(n):
             ob.prove(f"init[{i}]", pre, zx.eq(r["init"][i], L.V0[i]), cex=cexf("init", i), kind="initial values == initial_value(state)")
-            ob.prove(f"sweep[{i}]", pre, zx.eq(r["new"][i], B[i]), cex=cexf("sweep", i), kind="VI sweep == partition-free Bellman backup")
+            ob.prove(f"sweep[{i}]", pre, zx.eq(r["new"][i], B[i]), cex=cexf("sweep", i), kind="VI sweep == partition-free Bellman backup",
+                     margin=(r["new"][i], B[i], scaled, unit))
             member, idx = kit.policy_row_index(list(r["pol"][i]), r["aspace"])
             ob.prove(f"policy[{i}]", pre, zx.land(member, zx.eq(kit.lookup(Q[i], idx), B[i])), cex=cexf("policy", i),
-                     kind="extracted policy greedy (partition-free)")
+                     kind="extracted policy greedy (partition-free)", margin=(kit.lookup(Q[i], idx), B[i], scaled, unit))
             m2, pidx = kit.policy_row_index(list(r["policy"][i]), r["aspace"])
             ob.prove(f"policy-eval[{i}]", pre + ([m2] if zx.is_z(m2) else []), zx.eq(r["pv"][i], kit.lookup(Q[i], pidx)), cex=cexf("policy_eval", i),
                      kind="PI evaluation step == T_pi (partition-free)")
@@ -256,7 +259,7 @@ def replay(data):
     Q = (P * (R + g * V[T])).sum(-1)
     B = Q.max(-1)
     i = c["state"]
-    tol = 1e-7 * max(1.0, np.abs(B).max())
+    tol = 1e-7 * max(np.abs(R).max(), np.abs(V).max(), 1e-300)
     if c["kind"] in ("sweep", "policy", "init", "leak", "shape"):
         s = kit.make_solver("vi", pb, max_batch_size=cfg["bs"])
         init = np.asarray(s.values)
